@@ -21,6 +21,7 @@ from copy import deepcopy
 from functools import partial
 from itertools import chain
 from os import getpid, path, remove, replace
+from shutil import copymode
 from textwrap import indent
 
 from black import Mode, format_str
@@ -609,10 +610,14 @@ def file(node, filename, mode="a", skip_black=False):
         src = "{}{}{}".format(
             existing, "" if not existing or existing.endswith("\n") else "\n", src
         )
+    # ...of the file itself: a symbolic link is written through, not replaced, and the file keeps its permission bits
+    filename = path.realpath(filename)
     tmp_filename = "{}.{}.tmp".format(filename, getpid())
     try:
         with open(tmp_filename, "wt") as f:
             f.write(src)
+        if path.isfile(filename):
+            copymode(filename, tmp_filename)
         replace(tmp_filename, filename)
     except BaseException:
         if path.isfile(tmp_filename):
